@@ -1,10 +1,91 @@
+"""C06: stack operations behave as pest specifies and fail gracefully."""
 from ..coqbuild import check_property_proofs
-from .. import tb
+from .. import tb, core, rtcat
+
+
+def norm(i, n):
+    if i > n:
+        return None
+    if i >= 0:
+        return i
+    return n + i if n + i >= 0 else None
+
+
+def slice_oracle(ctx, a, b, s):
+    """list-slicing model of  (PUSH("ab"|"a"|"b")){0,4} ~ "-" ~ PEEK[a..b]  with ' ' skipped when ctx == 'on'"""
+    def skip(p):
+        if ctx == 'on':
+            while s[p:p + 1] == b' ':
+                p += 1
+        return p
+    pos, words = 0, []
+    for i in range(4):
+        p = skip(pos) if i > 0 else pos
+        for w in (b'ab', b'a', b'b'):
+            if s.startswith(w, p):
+                words.append(w)
+                pos = p + len(w)
+                break
+        else:
+            break
+    p = skip(pos)
+    if not s.startswith(b'-', p):
+        return ("fail", None, len(words))
+    p = skip(p + 1)
+    n = len(words)
+    lo = norm(a, n)
+    hi = n if b is None else norm(b, n)
+    if lo is None or hi is None:
+        return ("fail", None, n)
+    text = b''.join(words[lo:hi]) if hi > lo else b''
+    if s.startswith(text, p):
+        return ("ok", p + len(text), n)
+    return ("fail", None, n)
+
+
+def make_t3(envs):
+    by_name = {e.name: e for e in envs}
+
+    def t3(sid, f, x, a):
+        got = rtcat.p_core(f["P"])
+        if got != a:
+            return "parse gives %s but the reference gives %s" % (got[:160], (a or "")[:160])
+        if "PANIC" in f["P"] or "PANIC" in f["C"]:
+            return "a stack operation panicked: %s" % f["P"][:80]
+        en, sn = sid.split(".")
+        if en.startswith("sl_on") or en.startswith("sl_off"):
+            env = by_name[en]
+            sh = env.shapes[int(sn[1:])][2]       # ('seq', ctx, [rep, '-', ('slice', a, b)])
+            ctx = sh[1]
+            _, aa, bb = sh[2][2]
+            hx = f["_hex"]
+            s = bytes.fromhex(hx) if hx != "-" else b""
+            o = slice_oracle(ctx, aa, bb, s)
+            if o[0] == "ok":
+                if not f["P"].startswith("ok@%d=" % o[1]):
+                    return "list-slicing model: PEEK[%s..%s] on a stack of %d matches up to %d, parse gives %s" % (aa, bb, o[2], o[1], f["P"][:60])
+            elif not f["P"].startswith("fail"):
+                return "list-slicing model: PEEK[%s..%s] on a stack of %d must fail, parse gives %s" % (aa, bb, o[2], f["P"][:60])
+        return None
+    return t3
+
+
+def nontrivial(sid, f, a):
+    # the slice / stack built-in was reached with a non-empty stack
+    return "S:[" in f["P"] and ";S:[]" not in f["P"]
 
 
 def check(ctx):
     ok = check_property_proofs(ctx, "C06")
     if not ok:
         ctx.violation("proof obligation for C06 no longer checks", {"broken": [n for n, o, _ in ctx.obligations if not o]}, found_input=False)
-    ctx.rule = "T1 only so far"
+    envs, run = core.core_run(ctx.tier)
+    core.scan(ctx, envs, run, ("slices",), make_t3(envs), nontrivial, "stack built-in off its spec")
+    lim = 3 if ctx.tier == "quick" else 6
+    ctx.rule = ("slices family: PEEK[a..b] / PEEK[a..] for all a, b in -%d..%d on stacks of depth 0..4 (content and depth taken from "
+                "the input: (PUSH(\"ab\"|\"a\"|\"b\")){0,4} ~ \"-\" ~ slice), in atomic and non-atomic context, plus PEEK/POP/DROP/"
+                "PEEK_ALL/POP_ALL incl. empty stack and PUSH of an empty match; inputs = all pushed prefixes x all suffixes up to the "
+                "tier's length; oracles: reference interpreter and an independent list-slicing model; non-trivial = final stack "
+                "non-empty; distinct = (shape, input)" % (lim, lim))
+    ctx.coverage["exhaustive"] = True
     return ctx.finish(level="proof", trusted_base=tb.BASE)
